@@ -14,7 +14,8 @@ RULE = ('cases = (prior memory, start address, data) for Game.write_cart_data ag
         'generated fills, "random" draws arbitrary pairs, "history" is a state machine of write '
         'sequences. Non-trivial = the write is non-empty and starts or ends on a region boundary '
         'or spans >= 2 regions or is an overflow that must be rejected; distinct by (start, len, '
-        'hash of data and prior memory).')
+        'hash of data and prior memory).'
+        " Histories also replace section objects (g.map = Map.from_bytes(...), as the loaders and build do) and copy memory inside the cart (data = the live buffer another region's to_bytes() returns); a twin cart made with from_bytes(to_bytes()) must keep its memory.")
 ASSUMPTIONS = ['memory map gfx 0x0000, map 0x2000, gff 0x3000, music 0x3100, sfx 0x3200, end 0x4300 '
                '(PICO-8 manual)', 'start addresses are 0x0000..0x42ff (or beyond, for the reject clause); '
                'negative addresses are out of contract and not generated']
